@@ -255,6 +255,13 @@ def evaluate(cases, rep, tag="cases"):
         # standard errors, visible only when population_counts_moe is read before table_proportion_stderrs):
         # the variances / standard deviations / standard errors / margins of error read after every other
         # public read must be the ones of the fresh partition the model was compared with.
+        if int(case.get("k", 0)) % 3 == 0 or case.get("dominant") or case.get("empty_wave"):
+            for n, a, b in cc.warnings_as_errors(case, N1 if io["ndim"] == 1 else N2)[:1]:
+                rep.violation("impl-vs-property", cc.replayable(case),
+                              {"what": n + " differs when warnings are errors", "normal": a,
+                               "warnings_as_errors": b},
+                              {"measure": n, "oracle": "warnings_as_errors", "types": "x".join(io["types"])})
+            rep.dist("warnings-as-errors")
         population, late = cc.late_reads(case, N1 if io["ndim"] == 1 else N2, io["v"])
         rep.dist("late-reads:" + ("strand" if io["ndim"] == 1 else "slice"))
         rep.dist("late-reads:population=%s" % ("yes" if population is not None else "none"))
@@ -275,6 +282,7 @@ def run(tier, seed):
     # dominant-cell stream (see common_cases.dominate): variances / standard errors of proportions that
     # are 1 - O(1e-6) and O(1e-6), where tolerance-style edits (np.isclose, clipping) become visible
     cc.dominate_some(cases, seed)
+    cc.empty_wave_some(cases, seed, p=0.3)
     coq_s, nterms = evaluate(cases, rep)
     rep.cov["rule"] = (
         "random.Random(seed): same survey/insertion generator as C03 (all CAT|CAT_DATE|MR|CA pairings, strands, "
